@@ -61,4 +61,30 @@ RELAX = dict(
     extra_params={"dijkstra_relax": [("decKey", "H → Nat → Array NodeK → H")]},
 )
 
-JOBS = {"shortest": SHORTEST, "dijkstra_relax": RELAX}
+# ---- the WHOLE function dijkstra(s, vs, d): init loop, heap construction, `while (!Q.isEmpty())` (on fuel: the generated function
+# has an extra parameter `fuel_`, and `_pre` demands that the loop is over when the fuel is used up), extractMin, the write
+# `d[u->id] = u->d`, the relax loop.  The pairing heap is abstract: its five operations are the record `ops : HeapOps H`
+# (Gen/KeysShortest.lean); `vs[i].p = …` / `vs[i].qnode = …` are not modelled (the effect of `Q.insert` on Q is kept).
+_HEAP = "PairingHeap<Node<double> *, CompareNodes<double>>"
+DIJKSTRA = dict(
+    src="cola/libcola/shortest_paths.h", shim=_SHIM2,
+    ns="AdaptaVerif.Gen.DijkstraK", out="lean/AdaptaVerif/Gen/DijkstraK.lean",
+    imports=["AdaptaVerif.Gen.PreludeLoops", "AdaptaVerif.Model.ShortestPaths", "AdaptaVerif.Gen.KeysShortest"],
+    opens=["AdaptaVerif.Model.ShortestPaths (Dist oadd omin)", "AdaptaVerif.Model.PairingHeap (ltDist)", "AdaptaVerif.Gen.KeysShortest"],
+    functions=["dijkstra"],
+    sig_contains={"dijkstra": "std::vector<Node<double>> &"},
+    types={"double": "Dist"}, num={"Dist": _DIST2},
+    qual_types={"std::vector<Node<double>>": ("Array NodeK", "state"), _HEAP: ("H", "state"), "double *": ("Array Dist", "state")},
+    type_params=["H"],
+    ptr_index={"Node<double>": "vs"}, elem_addr_as_index=["vs"],
+    fields={("NodeK", "neighbours"): "List Nat", ("NodeK", "nweights"): "List Dist", ("NodeK", "d"): "Dist", ("NodeK", "id"): "Nat"},
+    skip_member_writes=["p", "qnode"],
+    default_ctors={_HEAP: ("ops.empty", "H")},
+    opaque_methods={"isEmpty": ("ops.isEmpty", "Bool")},
+    state_methods={"decreaseKey": dict(fn="ops.decreaseKey", skip_args=[0], extra_vars=["vs"]),
+                   "insert": dict(fn="ops.insert", extra_vars=["vs"]),
+                   "extractMin": dict(fn="ops.extractMin", ret="Nat")},
+    extra_params={"dijkstra": [("ops", "HeapOps H")]},
+)
+
+JOBS = {"shortest": SHORTEST, "dijkstra_relax": RELAX, "dijkstra": DIJKSTRA}
